@@ -33,6 +33,18 @@ impl NotificationService for SimNotify {
         let mut w = lock(&self.world);
         let dest = req.destination.to_string();
         w.ev(|| format!("NOTIFY failed dest={dest}"));
+        // R10 (payee): the payee reported for a failed payment is the key the invoice's
+        // signature verifies against (reference: how the invoice was signed)
+        let want = w.htlcs.iter().find_map(|h| match &h.spec.label {
+            crate::gen::RefLabel::Tramp { bolt11, payee, .. } if *bolt11 == req.invoice => Some(*payee),
+            _ => None,
+        });
+        if let Some(p) = want {
+            w.stats.eval("R10-payee", (p == req.destination) as u64);
+            if p != req.destination {
+                w.violate("C10", "R10", "R10|payee-differs-from-signing-key".into(), format!("payment failure for invoice reported payee {dest}, the signature verifies against {p}"));
+            }
+        }
         w.notified.push((req.invoice.clone(), dest));
     }
 }
